@@ -17,7 +17,8 @@ RULE = ("generated interface family (1..3 target namespaces, nested sequence/cho
         ' ; plus dedicated streams: elements with default / nillable / lists with None items, untyped rpc/encoded leaves with integers of every magnitude, attributes named type / nil on a derived-type object, restricted simple types (two levels), two ports with a same-named operation, a bare part of a consolidated schema block (D48), family requests with prefixes=False; every request: an xsi:nil element is empty'
         ' ; float/double elements, list items and attributes given INF, -INF, NaN and the extremes'
         ' ; a name shared by an inherited attribute and an element (each written by its own declaration)'
-        ' ; header lists mixing Elements and values; tuples for repeated elements')
+        ' ; header lists mixing Elements and values; tuples for repeated elements'
+        ' ; the foreign-typed wrapper stream shared with C08')
 ASSUMPTIONS = ["leaf lexical forms are compared by value per XSD type (the translators themselves are C06)",
                "alphabet: a None is passed only where the schema allows absence or nil; a repeating member of "
                "array type (list of lists) and content-free objects are not generated",
